@@ -588,7 +588,11 @@ size_t varintBitmapEncode(const varintBitmap *vb, uint8_t *buffer) {
 }
 
 varintBitmap *varintBitmapDecode(const uint8_t *buffer, size_t len) {
-    (void)len; /* Unused, but kept for API consistency */
+    /* Header: type byte + cardinality */
+    const size_t headerSize = 1 + sizeof(uint32_t);
+    if (!buffer || len < headerSize) {
+        return NULL; /* Truncated input */
+    }
 
     varintBitmap *vb = malloc(sizeof(varintBitmap));
     if (!vb) {
@@ -602,8 +606,16 @@ varintBitmap *varintBitmapDecode(const uint8_t *buffer, size_t len) {
     memcpy(&vb->cardinality, buffer, sizeof(uint32_t));
     buffer += sizeof(uint32_t);
 
+    /* Bytes of payload the caller actually gave us */
+    size_t remaining = len - headerSize;
+
     switch (vb->type) {
     case VARINT_BITMAP_ARRAY:
+        /* The declared element count must fit in the input */
+        if (vb->cardinality > remaining / sizeof(uint16_t)) {
+            free(vb);
+            return NULL; /* Truncated or corrupt input */
+        }
         vb->container.array.capacity = vb->cardinality;
         vb->container.array.values = malloc(vb->cardinality * sizeof(uint16_t));
         if (!vb->container.array.values) {
@@ -615,6 +627,10 @@ varintBitmap *varintBitmapDecode(const uint8_t *buffer, size_t len) {
         break;
 
     case VARINT_BITMAP_BITMAP:
+        if (remaining < VARINT_BITMAP_BITMAP_SIZE) {
+            free(vb);
+            return NULL; /* Truncated input */
+        }
         vb->container.bitmap.bits = malloc(VARINT_BITMAP_BITMAP_SIZE);
         if (!vb->container.bitmap.bits) {
             free(vb);
@@ -624,8 +640,18 @@ varintBitmap *varintBitmapDecode(const uint8_t *buffer, size_t len) {
         break;
 
     case VARINT_BITMAP_RUNS:
+        if (remaining < sizeof(uint32_t)) {
+            free(vb);
+            return NULL; /* Truncated input */
+        }
         memcpy(&vb->container.runs.numRuns, buffer, sizeof(uint32_t));
         buffer += sizeof(uint32_t);
+        remaining -= sizeof(uint32_t);
+        /* The declared run count must fit in the input */
+        if (vb->container.runs.numRuns > remaining / (2 * sizeof(uint16_t))) {
+            free(vb);
+            return NULL; /* Truncated or corrupt input */
+        }
         vb->container.runs.capacity = vb->container.runs.numRuns;
         vb->container.runs.runs =
             malloc(vb->container.runs.numRuns * 2 * sizeof(uint16_t));
@@ -636,6 +662,10 @@ varintBitmap *varintBitmapDecode(const uint8_t *buffer, size_t len) {
         memcpy(vb->container.runs.runs, buffer,
                vb->container.runs.numRuns * 2 * sizeof(uint16_t));
         break;
+
+    default:
+        free(vb);
+        return NULL; /* Unknown container type */
     }
 
     return vb;
